@@ -132,6 +132,10 @@ fn create_next_state<C: ContentAddrStore>(
                     .insert_coin(coinid, coin_data.clone(), is_tip_906);
             }
         }
+    }
+    // inputs are removed only after every output of the batch exists, so that a transaction
+    // presented before the one whose output it spends still consumes that output
+    for tx in transactions {
         for coinid in tx.inputs.iter() {
             next_state.coins.remove_coin(*coinid, is_tip_906);
         }
